@@ -166,10 +166,91 @@ def replay_codec(rp, binp, workdir, ctx):
     return any(rp["signature"] in v["fails"] for v in vs)
 
 
+# ---------------------------------------------------------------------------------------------- C18
+
+def det_run(ctx, binp, args, seed):
+    """runs the determinism command; returns (stderr text, exit code) without raising on a race report"""
+    r = ctx["sh"]([binp] + args, env=dict(VERIF_SEED=str(seed), GORACE="halt_on_error=0"), capture_output=True, text=True)
+    return r.stdout + r.stderr, r.returncode
+
+
+def run_determinism(ctx, prop, tier, seed, binp, workdir):
+    race = ctx["build_race"]()
+    n, depth = (8, 40) if tier == "quick" else (80, 150)
+    obs = os.path.join(workdir, "det.ndjson")
+    text, rc = det_run(ctx, race, ["determinism", "-n", str(n), "-depth", str(depth), "-out", obs], seed)
+    violations = []
+    if "DATA RACE" in text:
+        rp = write_replay(ctx, prop, seed, dict(special="det", signature="C18:data-race", first=1, n=n, depth=depth, report=text[-4000:]))
+        violations.append(dict(signature="C18:data-race", replay=rp))
+    elif rc != 0:
+        raise ctx["Machinery"]("determinism run failed (rc=%s):\n%s" % (rc, text[-3000:]))
+    recs = {}
+    for line in open(obs):
+        r = json.loads(line)
+        recs[r["id"]] = r
+    verdicts = aux_validate(ctx, "AuxTrace", "AuxTrace.cfg", obs, workdir)
+    bysig = {}
+    for v in verdicts:
+        for sig in v["fails"]:
+            bysig.setdefault(sig, v["id"])
+    for sig, rid in sorted(bysig.items()):
+        rp = write_replay(ctx, prop, seed, dict(special="det", signature=sig, first=rid, n=2, depth=depth, replicas=recs[rid]["replicas"]))
+        violations.append(dict(signature=sig, replay=rp))     # irreproducibility IS the violation: two recorded runs differ
+    steps = sum(r["steps"] for r in recs.values())
+    nrep = len(next(iter(recs.values()))["replicas"]) if recs else 0
+    ex = recs[min(recs)] if recs else {}
+    cov = dict(evaluations=steps * nrep, distinct_nontrivial=steps, traces_validated_against_impl=len(recs) * nrep,
+               histories=len(recs), replicas_per_history=nrep, race_detector=True,
+               samples=[dict(history=ex.get("id"), steps=ex.get("steps"), last_digest_by_replica={k: v[-1] for k, v in ex.get("replicas", {}).items()})])
+    return dict(violations=violations, coverage=cov)
+
+
+def replay_det(rp, binp, workdir, ctx):
+    race = ctx["build_race"]()
+    obs = os.path.join(workdir, "rdet.ndjson")
+    text, rc = det_run(ctx, race, ["determinism", "-first", str(rp["first"]), "-n", str(rp["n"]), "-depth", str(rp["depth"]), "-out", obs], rp["seed"])
+    if rp["signature"] == "C18:data-race":
+        return "DATA RACE" in text
+    vs = aux_validate(ctx, "AuxTrace", "AuxTrace.cfg", obs, workdir)
+    return any(v["fails"] for v in vs)
+
+
+# ---------------------------------------------------------------------------------------------- C20 (non-transaction inputs)
+
+def run_misc(ctx, prop, tier, seed, binp, workdir):
+    obs = os.path.join(workdir, "misc.ndjson")
+    harness(ctx, binp, ["misc", "-out", obs], seed)
+    recs = [json.loads(x) for x in open(obs)]
+    verdicts = aux_validate(ctx, "AuxTrace", "AuxTrace.cfg", obs, workdir)
+    sigs = sorted({s for v in verdicts for s in v["fails"]})
+    # decoders: the codec vectors (every input length 0..300 and more), panics only
+    cobs = os.path.join(workdir, "codec20.ndjson")
+    harness(ctx, binp, ["codec", "-n", "300" if tier == "quick" else "5000", "-out", cobs], seed)
+    ndec = 0
+    for line in open(cobs):
+        r = json.loads(line)
+        ndec += 1
+        if r["obs"]["res"] == "panic":
+            sigs.append("C20:decoder:" + r["kind"])
+    violations = []
+    for sig in sorted(set(sigs)):
+        rp = write_replay(ctx, prop, seed, dict(special="misc", signature=sig))
+        violations.append(dict(signature=sig, replay=rp))
+    cov = dict(evaluations=len(recs) + ndec, distinct_nontrivial=len(recs) + ndec, traces_validated_against_impl=len(recs),
+               query_and_cli_calls=len(recs), decoder_inputs=ndec, samples=recs[:2])
+    return dict(violations=violations, coverage=cov)
+
+
+def replay_misc(rp, binp, workdir, ctx):
+    r = run_misc(ctx, rp["property"], "quick", rp["seed"], binp, workdir)
+    return any(v["signature"] == rp["signature"] for v in r["violations"])
+
+
 # ---------------------------------------------------------------------------------------------- dispatch
 
-FLOWS = {"genesis": run_genesis, "codec": run_codec}
-REPLAYS = {"genesis": replay_genesis, "reimport": replay_genesis, "codec": replay_codec}
+FLOWS = {"genesis": run_genesis, "codec": run_codec, "determinism": run_determinism, "misc": run_misc}
+REPLAYS = {"genesis": replay_genesis, "reimport": replay_genesis, "codec": replay_codec, "det": replay_det, "misc": replay_misc}
 
 
 def run(special, prop, tier, seed, binp, workdir, ctx):
